@@ -12,6 +12,7 @@ from fractions import Fraction as F
 
 from harness import fr
 from harness.props import netlist_common as nc
+from harness.props import netlist_boundary as nb
 from harness.props.netlist_common import val, close
 
 HEADER = nc.HEADER
@@ -50,7 +51,14 @@ def rkey(x, y, w, h, region, fixed):
 
 
 def strict_wf(doc) -> bool:
-    """A restatement of the format for plainly written documents (used for shrunk cases only)."""
+    """A restatement of the format for plainly written documents (used for shrunk cases and near misses only)."""
+    try:
+        return _strict_wf(doc)
+    except Exception:
+        return False
+
+
+def _strict_wf(doc) -> bool:
     import re
     if not isinstance(doc, dict) or "Modules" not in doc or set(doc) - {"Modules", "Nets"}:
         return False
@@ -59,7 +67,7 @@ def strict_wf(doc) -> bool:
         return False
     num = lambda x: nc.is_num(x)
     for name, i in mods.items():
-        if not re.fullmatch(r"[A-Za-z_][A-Za-z0-9_]*", name) or not isinstance(i, dict) or set(i) - KNOWN:
+        if not nc.is_ident(name) or not isinstance(i, dict) or set(i) - KNOWN:
             return False
         rs = i.get("rectangles", [])
         if "rectangles" in i and (not isinstance(rs, list) or not rs or not all(
@@ -123,10 +131,12 @@ def oracle(case, obs):
             return None
     elif exp == "accept" and obs["verdict"] != "ok":
         if not case.get("shrunk") or strict_wf(doc):
-            return f"well-formed-rejected: {obs['verdict']}: {obs.get('msg', '')[:200]}"
+            return f"well-formed-rejected{scale_suffix(doc, obs)}: {obs['verdict']}: {obs.get('msg', '')[:200]}"
         return None
     if obs["verdict"] != "ok":
         return None
+    if exp == "" and not strict_wf(doc):
+        return None         # a deviation outside the property's list was loaded: the definitions need not apply
     n1 = obs["n1"]
     mods = nc.mods_of(doc)
     if [m["name"] for m in n1["modules"]] != list(mods):
@@ -190,6 +200,21 @@ def oracle(case, obs):
     return None
 
 
+def scale_suffix(doc, obs) -> str:
+    """names the class of the open finding C05/well-formed-rejected-small-scale: 'Not all flip modules have a STOG'
+    on a document whose smallest dimension is so far below its coordinates that the distance tolerance derived from
+    it (1e-12 times that dimension) is absorbed when added to a coordinate"""
+    if "Not all flip modules have a STOG" not in obs.get("msg", ""):
+        return ""
+    e = nb.eps_of(doc)
+    coords = [float(val(v)) for i in nc.mods_of(doc).values() if isinstance(i, dict) for r in nc.rects_of(i)
+              if isinstance(r, list) for v in r[:4] if nc.numlike(v)]
+    if e is None or not coords:
+        return ""
+    big = max(abs(c) for c in coords)
+    return "-small-scale" if big - e[0] == big or big + e[0] == big else ""
+
+
 def failure_key(case, why):
     head = (why or "").split(":")[0].strip()
     if " " in head or not head:
@@ -205,16 +230,59 @@ def shrink(case):
 
 def gen_case(rng, quick=True):
     r = rng.random()
-    if r < 0.55:
+    if r < 0.30:
         return {"stream": "exact", "expect": "accept", "exact": True, "doc": nc.gen_doc(rng)}
-    if r < 0.65:
+    if r < 0.50:
+        doc, tags = nb.decorate(rng, nc.gen_doc(rng))
+        c = {"stream": "exact-boundary", "expect": "accept", "exact": True, "doc": doc}
+        return with_form(rng, c)
+    if r < 0.58:
         return {"stream": "decimal", "expect": "accept", "exact": False, "doc": nc.gen_doc(rng, decimal=True)}
+    if r < 0.66:
+        vs = list(nb.near_misses(rng, nc.gen_doc(rng, quirks=False)))
+        tag, d = rng.choice(vs)
+        return with_form(rng, {"stream": "near-miss", "tag": tag, "expect": "", "exact": True, "doc": d})
     for _ in range(50):
         cls = rng.choice(nc.CLASSES)
-        d = nc.inject(rng, nc.gen_doc(rng, quirks=False), cls)
-        if d is not None:
-            return {"stream": "malformed", "expect": "reject:" + cls, "exact": True, "doc": d}
+        base = nc.gen_doc(rng, quirks=False)
+        if rng.random() < 0.5:
+            d = nc.inject(rng, base, cls)
+            if d is not None:
+                return {"stream": "malformed", "expect": "reject:" + cls, "exact": True, "doc": d}
+        else:
+            vs = list(nb.variants(rng, base, cls, per_kind=8))
+            if vs:
+                tag, d = rng.choice(vs)
+                return with_form(rng, {"stream": "boundary", "tag": cls + "/" + tag, "expect": "reject:" + cls,
+                                       "exact": True, "doc": d})
     return {"stream": "exact", "expect": "accept", "exact": True, "doc": nc.gen_doc(rng)}
+
+
+def with_form(rng, case):
+    """the input form: the document written by the real write_yaml (default), the tree itself, or a hand-spelled text"""
+    r = rng.random()
+    if r < 0.2:
+        case["via"] = "tree"
+    elif r < 0.45:
+        t = nb.spell(rng, nc.to_py(case["doc"]))
+        if t is not None:
+            case["text"] = t
+    return case
+
+
+def catalogue(rng, quick):
+    """every boundary instance of every listed class (and every near miss) on documents that have all module kinds"""
+    cases = []
+    for b in range(1 if quick else 8):
+        doc = nb.rich_doc(rng)
+        for cls in nc.CLASSES:
+            for tag, d in nb.variants(rng, doc, cls, per_kind=(24 if quick else None)):
+                cases.append(with_form(rng, {"stream": "boundary", "tag": cls + "/" + tag, "expect": "reject:" + cls,
+                                             "exact": True, "doc": d}))
+        for tag, d in nb.near_misses(rng, doc):
+            cases.append(with_form(rng, {"stream": "near-miss", "tag": tag, "expect": "", "exact": True, "doc": d}))
+        cases.append({"stream": "small-scale", "expect": "accept", "exact": True, "doc": nb.small_scale(rng, doc)})
+    return cases
 
 
 def nontrivial(case):
@@ -222,21 +290,47 @@ def nontrivial(case):
     return nm >= 2 and (nn >= 1 or nr >= 2)
 
 
+def dist_key(c):
+    k = c.get("stream", "?")
+    if (c.get("expect") or "").startswith("reject:"):
+        k += "/" + c["expect"][7:]
+    return k
+
+
 def run(ctx, out, replay=None):
-    n = 1200 if ctx.quick() else 15000
-    out.rule = ("random netlist documents: 1-8 modules over every attribute combination (scalar / per-region area, centre, "
-                "aspect ratio scalar / pair, rectangles with named regions forming STOGs or not, hard, flip, fixed, terminal "
-                "with/without centre, redundant false flags, bool-as-number), nets of arity 2-6 with/without weight, dyadic "
-                "numbers; 35% carry one injected defect of a listed class at a random position; 10% decimal (oracle only); "
-                "non-trivial = at least two modules and a net or two rectangles; distinct by hash")
+    n = 1300 if ctx.quick() else 15000
+    out.rule = ("(a) catalogue: on documents holding every kind of module, every boundary instance of every listed defect "
+                "class (harness/props/netlist_boundary.py: zeros of every spelling, False, the smallest negative floats, an "
+                "area equal to the rectangles' on a hard module - number, ground mapping, split over regions, one ulp-ish "
+                "off -, almost-identifiers by suffix / prefix / look-alike (newline, blank, tab, NUL, U+0085, Unicode letters "
+                "and digits, empty, 1e3, ~) for module names, area regions and rectangle regions, keys that are not strings "
+                "(YAML null / true / 12 / 1e3), near-attributes by case / blank / plural, overlaps by a sliver, `rectangles: []`, "
+                "nets whose only other entry is the weight) and every near miss outside the list (verdict left to the model); "
+                "(b) random netlist documents: 1-8 modules over every attribute combination, nets of arity 2-6, dyadic numbers; "
+                "20% rewritten with boundary-valid values (names null / true / on / _ / area / Modules, extreme weights and areas, "
+                "ints for floats); 34% carry one injected defect of a listed class at a random position (half of them boundary "
+                "instances); 8% near misses; 8% decimal (oracle only); a quarter of the new streams given as a tree or as "
+                "hand-spelled YAML text (1e3, +2, .5, quoted names); non-trivial = at least two modules and a net or two "
+                "rectangles; distinct by hash")
     cases = []
     if replay and "case" in replay:
         cases.append(fr.unjson(replay["case"]))
     cases += fr.load_corpus("C05")
+    cases += catalogue(ctx.rng, ctx.quick())
     while len(cases) < n:
         cases.append(gen_case(ctx.rng))
-    fr.run_cases(ctx, out, cases, nc.run_impl, nc.to_coq, oracle, failure_key, HEADER,
-                 dist_key=lambda c: c.get("stream", "?") + ("/" + c["expect"][7:] if (c.get("expect") or "").startswith("reject:") else ""),
-                 nontrivial=nontrivial, shard=100, shrink=shrink)
+    tags = sorted({c["tag"] for c in cases if c.get("stream") == "boundary"})
+    out.extra["boundary_instances"] = len(tags)
+    out.extra["boundary_tags"] = tags
+    out.extra["near_miss_tags"] = sorted({c["tag"] for c in cases if c.get("stream") == "near-miss"})
+    forms = {}
+
+    def run_impl(case):
+        obs = nc.run_impl(case)
+        forms[obs.get("via", "?")] = forms.get(obs.get("via", "?"), 0) + 1
+        return obs
+    fr.run_cases(ctx, out, cases, run_impl, nc.to_coq, oracle, failure_key, HEADER,
+                 dist_key=dist_key, nontrivial=nontrivial, shard=100, shrink=shrink)
+    out.extra["input_forms"] = forms
     for f in out.failures:      # a shrunk input is filed under the failure it shows
         f["key"] = failure_key(None, f.get("why"))
